@@ -10,6 +10,7 @@ def build():
     c_cropping_reap.install(R)
     c_cropping_reap.install2(R)
     c_cropping_reap.install3(R)
+    c_cropping_reap.install_cache_invariant(R)
     c_stats.install(R)
     c_runner.install(R)
     c_runner.install_core(R)
@@ -38,6 +39,20 @@ def build():
     c_manage.install_harvester4(R)
     c_manage.install_meta(R)
     c_format.install(R)
+    # bounded stand-ins on the real code that run with the quick tier (labelled bounded in the evidence, never counted as discharged)
+    for pid, what in {
+        "C01": "grid sweeps on the real code (replay/C01.py: 384 configurations: 1-3 arguments, sequential / thread pool / process pool / apply_async conventions, "
+               "shuffle seeds, flat and split results, completion in adversarial order): every combination called exactly once with exactly its kwargs, each result in its slot",
+        "C07": "sowing on the real code (replay/C07.py: N up to 48, every batchsize / num_batches request, grids and case lists): batch files partition the settings stream, "
+               "sizes as stated, reload of the crop reports the same numbers",
+        "C09": "partial reaps on the real code (replay/C09.py: N = 2..7, every batching, subsets of finished batches, number / bool / str / tuple results, shuffle): finished "
+               "values exact, placeholders elsewhere, crop kept, growing continues to the exact full result",
+        "C12": "reaps with injected failures on the real code (replay/C12.py: raw, Runner and Harvester crops; failures in the result files, the dataset construction and the "
+               "harvester merge; clean_up / allow_incomplete combinations): the crop survives every failed reap and is deleted only as requested",
+        "C19": "running statistics against whole-sample numpy statistics on the real code (replay/C19.py: random samples, chunkings and permutations, large offsets, "
+               "estimate_from_repeats limits)",
+    }.items():
+        R.prop_meta.setdefault(pid, {}).setdefault("bounded_in_quick", what)
     # calls dropped as no-ops (DESIGN 2.2) -- every dropped call site is listed in the evidence
     R.inert |= {"print", "warnings.warn", "progbar", "time.sleep", "logger.setLevel", "logging.getLogger",
                 "sys.stderr.flush"}
